@@ -53,7 +53,10 @@ def tree_desc(rng, uni, ns, nmax=5, distinct=False, leaves_only=False, nmin=1):
     itax = []
     if not leaves_only and rng.random() < 0.2:
         itax = [rng.choice(uni)]
-    return {"ns": ns, "labels": labels, "itax": itax, "shape": rng.randrange(10 ** 6)}
+    td = {"ns": ns, "labels": labels, "itax": itax, "shape": rng.randrange(10 ** 6)}
+    if not leaves_only and k >= 2 and rng.random() < 0.08:
+        td["bare"] = rng.randrange(k)       # one tip carries no taxon
+    return td
 
 
 def doc_trees(rng, uni, k, nmin=2, spelling=()):
@@ -77,17 +80,17 @@ def spec_of(desc, text=False):
         inner = [n for n in ref.preorder(spec) if n[3] and n is not spec]
         for lbl, n in zip(desc.get("itax", ()), inner):
             n[0] = lbl
+        if desc.get("bare") is not None:
+            tips = [n for n in ref.preorder(spec) if not n[3]]
+            if len(tips) >= 2:
+                tips[desc["bare"] % len(tips)][0] = None
     return spec
 
 
-def seq_for(k):
-    """a distinct DNA string per integer (row provenance)."""
-    s = ""
-    k += 1
-    while k:
-        s += SEQ_ALPHABET[k % 4]
-        k //= 4
-    return (s + "AAAAAA")[:6]
+def seq_for(k, dtype="dna"):
+    """a distinct sequence per integer (row provenance)."""
+    from . import _c11_docs
+    return _c11_docs.seq_for(k, dtype)
 
 
 # ---- texts (hand written; only letters in labels, so no quoting questions arise) ---------------
@@ -327,8 +330,16 @@ class World(object):
         s.arrays = {}
         for a, model in self.arrays:
             s.arrays[id(a)] = (a, a.taxon_namespace, a._split_distribution.taxon_namespace,
-                               list(a._tree_leafset_bitmasks), [list(x) for x in model])
+                               list(a._tree_leafset_bitmasks), [list(x) for x in model],
+                               (len(a._tree_split_bitmasks), len(a._tree_edge_lengths), len(a._tree_weights)),
+                               list(a._tree_split_bitmasks))
         return s
+
+    def array_entry(self, a):
+        for e in self.arrays:
+            if e[0] is a:
+                return e
+        return None
 
     def describe(self):
         """small JSON-able picture for witnesses."""
@@ -338,13 +349,21 @@ class World(object):
                               for i, ns in enumerate(self.namespaces)],
                "lists": [{"ns": nsi.get(id(l.taxon_namespace)),
                           "trees": [{"ns": nsi.get(id(t.taxon_namespace)),
-                                     "taxa": [x[2] for x in walk(t) if x[2] is not None]} for t in l._trees]}
+                                     "taxa": [x[2] for x in walk(t) if x[2] is not None]} for t in l._trees[:40]]}
                          for l in self.lists],
                "matrices": [{"ns": nsi.get(id(m.taxon_namespace)), "rows": [t.label for t in m._taxon_sequence_map]}
                             for m in self.mats],
                "datasets": [{"attached": nsi.get(id(d.attached_taxon_namespace)) if d.attached_taxon_namespace is not None else None,
                              "n_ns": len(d.taxon_namespaces), "n_lists": len(d.tree_lists), "n_mats": len(d.char_matrices)}
-                            for d in self.datasets]}
+                            for d in self.datasets],
+               "arrays": [{"ns": nsi.get(id(a.taxon_namespace)), "trees": [list(x) for x in model][:6]} for a, model in self.arrays]}
+        for e in out["namespaces"]:
+            if not self.namespaces[e["i"]].is_mutable:
+                e["immutable"] = True
+        for e, l in zip(out["lists"], self.lists):
+            if len(l._trees) > 8:
+                e["n_trees"] = len(l._trees)
+                e["trees"] = e["trees"][:8]
         return out
 
 
@@ -359,18 +378,23 @@ class Expect(object):
         self.inplace = []         # [(tree, mode, want)]   trees whose nodes are re-mapped in place
         self.lists = {}           # id(list) -> (list, [slot,...])  expected members after a normal return
         self.newlist = None       # ("result"|"self", [slot,...])   a list created by the call
-        self.reads = None         # {"trees":[[labels]..], "rows":[[labels]..]|None, "dataset": D|None, "array": A|None}
-        self.mats = []            # [(matrix, mode)]  rows re-keyed in place
+        self.reads = None         # {"trees":[[labels]..], "mats":[[labels]..]|None, "dataset": D|None, "ns": namespace|None}
+        self.mats = []            # [(matrix, mode, want)]  rows re-keyed in place
         self.newmat = None        # "result"|"self": a matrix created by the call
         self.matclone = None      # (src matrix, mode) for newmat
         self.collision = False    # a label collision between rows is predicted (refusal is then legitimate)
         self.unify = None         # (dataset, target namespace|None)
         self.displaced = []       # trees that leave a list through this call (become "removed" trees)
         self.consumed = []        # free trees that become members (or garbage when the call raises)
-        self.array = None         # (array, [leaf-label list per tree that is accessioned], argument tree|None)
+        self.array = None         # {"a": array|None (None: created by the call), "model": [[labels]..] after a normal return,
+                                  #  "args": [argument trees], "partial": [[..model..], ..] states accepted after a refusal}
         self.assign = None        # (matrix, [(str label | Taxon, sequence signature)]) rows assigned by the call
         self.newrows = None       # labels of the rows a newly created matrix is filled with
+        self.newrows_ci = False   # ... compared up to case (the constructor matches keys case-insensitively)
         self.newds = None         # "result": a data set created by the call
+        self.touched_mats = []    # matrices the call may write to (frame)
+        self.multi_taxa_refusal = False
+        self.refusal_clause = None  # own clause name for an undocumented refusal of this input class (instead of unexpected-exception)
 
 
 def canon_fn(cs):
@@ -379,19 +403,34 @@ def canon_fn(cs):
     return lambda s: s.lower()
 
 
+_SUB = {}
+
+
+def treelist_subclass():
+    """a user-defined TreeList subclass (``isinstance`` routes must treat it like a TreeList)."""
+    if "c" not in _SUB:
+        import dendropy
+
+        class MyTreeList(dendropy.TreeList):
+            pass
+        _SUB["c"] = MyTreeList
+    return _SUB["c"]
+
+
 class Monitor(object):
     """pre = snapshot of the whole world; post = closure invariant over every tracked container,
     frame condition for everything the call was not asked to touch, provenance/one-to-one clauses
     for what it was asked to move.  Judged after every hooked call, returned or raised."""
 
     TREELIST = ("__init__", "append", "insert", "extend", "__iadd__", "__add__", "__setitem__", "__getitem__",
-                "__delitem__", "read", "get", "new_tree", "pop", "remove", "migrate_taxon_namespace",
-                "reconstruct_taxon_namespace", "update_taxon_namespace")
-    TREEARRAY = ("add_tree", "read")
-    MATRIX = ("new_sequence", "__setitem__", "__getitem__", "from_dict", "migrate_taxon_namespace",
+                "__delitem__", "read", "get", "new_tree", "pop", "remove", "clear", "migrate_taxon_namespace",
+                "reconstruct_taxon_namespace", "update_taxon_namespace", "as_tree_array")
+    TREEARRAY = ("add_tree", "read", "append", "insert", "add_trees", "from_tree_list", "read_from_files",
+                 "extend", "__iadd__", "__add__", "update")
+    MATRIX = ("__init__", "get", "new_sequence", "__setitem__", "__getitem__", "from_dict", "migrate_taxon_namespace",
               "reconstruct_taxon_namespace", "update_taxon_namespace")
-    DATASET = ("read", "get", "new_tree_list", "new_char_matrix", "unify_taxon_namespaces", "add",
-               "attach_taxon_namespace")
+    DATASET = ("__init__", "read", "get", "new_tree_list", "new_char_matrix", "unify_taxon_namespaces", "unify_taxa", "add",
+               "attach_taxon_namespace", "detach_taxon_namespace")
 
     def __init__(self, ctx):
         self.ctx = ctx
@@ -402,6 +441,7 @@ class Monitor(object):
         self.fired = False
         self.judge_error = None
         self._raise_disc = ""
+        self._raise_sfx = "-after-raise"
         self.consistent = True
 
     def install(self, hooks):
@@ -413,7 +453,8 @@ class Monitor(object):
                 hooks.install(cls, name, pre=self._pre, post=self._mk_post(tag), tag=tag)
 
     def _pre(self, obj, args, kw):
-        if self.world is None:
+        if self.world is None or self.expect is None:
+            # calls the driver did not announce (objects built by the harness itself) are not judged
             return None
         return self.world.snapshot()
 
@@ -425,8 +466,7 @@ class Monitor(object):
             self.expect = None
             self.fired = True
             if E is None:
-                E = Expect(tag, "unannounced")
-                self.ctx.ev("hook-without-announcement")
+                return
             try:
                 self.last_ok = self.judge(E, snap, obj, result, exc)
             except core.CaseTimeout:
@@ -437,24 +477,25 @@ class Monitor(object):
         return post
 
     # ------------------------------------------------------------------------------
-    def _detail(self, extra=None):
+    def _detail(self, extra=None, world=True):
         d = {"history": (self.history or [])[-12:], "n_ops": len(self.history or [])}
-        try:
-            d["world"] = self.world.describe()
-        except Exception as e:   # pragma: no cover
-            d["world"] = "unavailable: %r" % (e,)
+        if world:
+            try:
+                d["world"] = self.world.describe()
+            except Exception as e:   # pragma: no cover
+                d["world"] = "unavailable: %r" % (e,)
         if extra:
             d.update(extra)
         return d
 
-    def viol(self, E, clause, what, raised=False, disc=None, extra=None):
-        key = "%s|%s%s" % (E.op, clause, "-after-raise" if raised else "")
+    def viol(self, E, clause, what, raised=False, disc=None, extra=None, world=True):
+        key = "%s|%s%s" % (E.op, clause, self._raise_sfx if raised else "")
         dsc = disc if disc is not None else E.disc
         if raised:
             dsc = self._raise_disc     # which refusal left the state behind: exception class @ innermost library function
         if dsc:
             key += "|" + dsc
-        self.ctx.violation(key, what, self._detail(extra))
+        self.ctx.violation(key, what, self._detail(extra, world))
         return False
 
     # ------------------------------------------------------------------------------
@@ -463,8 +504,15 @@ class Monitor(object):
         raised = exc is not None
         ok = True
         if raised:
+            from dendropy.utility import error
             fr = core.innermost_repo_frame(exc)
             self._raise_disc = "%s@%s" % (type(exc).__name__, fr[0] if fr else "?")
+            # the state a *label-collision* refusal leaves behind keeps the historical clause suffix; any other exception
+            # class names itself in the clause, so that a recorded finding about one refusal cannot hide another one
+            if isinstance(exc, error.TaxonNamespaceReconstructionError):
+                self._raise_sfx = "-after-raise"
+            else:
+                self._raise_sfx = "-after-%s" % type(exc).__name__
         # ---- objects created by the call join the world before the closure is evaluated
         newlist = newmat = None
         if not raised:
@@ -474,23 +522,38 @@ class Monitor(object):
             if E.newmat is not None:
                 newmat = result if E.newmat == "result" else obj
                 w.track_mat(newmat)
-            if E.newds is not None and result is not None:
-                if not any(x is result for x in w.datasets):
-                    w.datasets.append(result)
+            if E.newds is not None:
+                nd = result if E.newds == "result" else obj
+                if nd is not None and not any(x is nd for x in w.datasets):
+                    w.datasets.append(nd)
                 if E.reads is not None:
-                    E.reads["dataset"] = result
+                    E.reads["dataset"] = nd
             if E.array is not None:
-                for a, model in w.arrays:
-                    if a is E.array[0]:
-                        model.extend(list(x) for x in E.array[1])
+                a = E.array["a"] if E.array["a"] is not None else result
+                ent = w.array_entry(a)
+                if ent is None:
+                    w.arrays.append([a, [list(x) for x in E.array["model"]]])
+                else:
+                    ent[1] = [list(x) for x in E.array["model"]]
+                E.array["a"] = a
             for t in E.displaced:
                 w.add_free(t, "removed")
             for t in E.consumed:
                 w.drop_free(t)
         else:
-            # a call that raised may have half-imported its argument trees: they are members of nothing
-            # (recorded, not judged), unless they did end up in a list, which the closure then sees
+            if E.array is not None and E.array["a"] is not None:
+                # a refusal in the middle of a multi-tree accession legitimately leaves a prefix behind
+                ent = w.array_entry(E.array["a"])
+                n = len(E.array["a"]._tree_leafset_bitmasks)
+                for cand in E.array.get("partial", ()):
+                    if len(cand) == n and ent is not None:
+                        ent[1] = [list(x) for x in cand]
+                        break
+            # a call that raised may have half-imported its argument trees: they are members of nothing, the STATEMENT
+            # says nothing about them (recorded, not judged), unless they did end up in a list, which the closure then sees
             for t in E.consumed:
+                if self._argument_left_inconsistent(t):
+                    ctx.note("argument-tree-left-half-imported-by-a-refusal:%s" % E.op)
                 w.drop_free(t)
         post = w.snapshot()
         # ---- exception classification
@@ -501,6 +564,9 @@ class Monitor(object):
             elif E.allowed and isinstance(exc, E.allowed):
                 ctx.ev("documented-error-seen")
                 ctx.ev("documented-error:%s:%s" % (E.op, type(exc).__name__))
+            elif E.refusal_clause is not None:
+                self.viol(E, E.refusal_clause, "%s refused a valid input with %s" % (E.op, core.exc_brief(exc)), disc=E.disc)
+                ok = False
             else:
                 ctx.unexpected(E.op, exc, self._detail())
                 ok = False
@@ -517,12 +583,25 @@ class Monitor(object):
         ok = self.check_lists(E, pre, post, items, newlist) and ok
         ok = self.check_inplace(E, pre, post, items) and ok
         ok = self.check_mats(E, pre, post, items, newmat) and ok
-        ok = self.check_reads(E, pre, post, items) and ok
+        ok = self.check_reads(E, pre, post, items, newlist, newmat) and ok
         ok = self.check_array(E, pre, post) and ok
         ok = self.check_unify(E, pre, post) and ok
         ok = self.check_items(E, pre, post, items) and ok
         self._adopt(post)
         return ok
+
+    def _argument_left_inconsistent(self, t):
+        for lst in self.world.lists:
+            if any(x is t for x in lst._trees):
+                return False
+        ns = t.taxon_namespace
+        if ns is None:
+            return True
+        mem = set(id(x) for x in ns)
+        try:
+            return any(x[1] is not None and id(x[1]) not in mem for x in walk(t))
+        except Exception:
+            return True
 
     def _adopt(self, post):
         for lid, (lst, ns, members) in post.lists.items():
@@ -530,7 +609,7 @@ class Monitor(object):
 
     def _spurious_refusal(self, E, pre, exc):
         disc = "no-label-collision"
-        mats = [m for m, _ in E.mats]
+        mats = [e[0] for e in E.mats]
         tgt = None
         if E.unify:
             mats = list(E.unify[0].char_matrices)
@@ -617,13 +696,17 @@ class Monitor(object):
                     ok = self.viol(E, "dataset-component-namespace-not-attached",
                                    "a %s of a data set in attached mode refers to another namespace" % type(comp).__name__, raised)
                     break
-        for aid, (a, ns, sdns, masks, model) in post.arrays.items():
+        for aid, (a, ns, sdns, masks, model, lens, splits) in post.arrays.items():
             ctx.ev("closure:array-judged")
             if sdns is not ns:
                 ok = self.viol(E, "array-split-distribution-namespace", "TreeArray and its split distribution refer to different namespaces", raised)
                 continue
             if len(masks) != len(model):
                 ok = self.viol(E, "array-tree-count", "TreeArray holds %d trees, %d were accessioned" % (len(masks), len(model)), raised)
+                continue
+            if any(x != len(masks) for x in lens):
+                ok = self.viol(E, "array-parallel-stores-differ-in-length",
+                               "TreeArray stores %d leaf sets but %s split sets / edge-length sets / weights" % (len(masks), lens), raised)
                 continue
             cf = canon_fn(bool(ns.is_case_sensitive))
             bit = [(ns.taxon_bitmask(t), t) for t in post.ns[id(ns)][2]] if id(ns) in post.ns else []
@@ -636,6 +719,10 @@ class Monitor(object):
                 if rest or got != want:
                     ok = self.viol(E, "array-leafset-not-in-namespace",
                                    "stored leaf set of tree %d maps to members %s (+ stray bits %s), accessioned labels %s" % (k, got, bin(rest), want), raised)
+                    break
+                if any(sp & ~mk for sp in splits[k]):
+                    ok = self.viol(E, "array-split-outside-leafset",
+                                   "a stored split of tree %d has bits outside the leaf set stored for that tree" % k, raised)
                     break
         return ok
 
@@ -657,10 +744,15 @@ class Monitor(object):
         ok = True
         touched = set(id(t) for t, _, _ in E.inplace)
         touched.update(id(t) for t in E.consumed)
-        if E.array is not None and E.array[2] is not None:
-            touched.add(id(E.array[2]))
+        tarrays = set()
+        if E.array is not None:
+            for t in E.array.get("args", ()):
+                touched.add(id(t))
+            if E.array["a"] is not None:
+                tarrays.add(id(E.array["a"]))
         tlists = set(E.lists.keys())
-        tmats = set(id(m) for m, _ in E.mats)
+        tmats = set(id(e[0]) for e in E.mats)
+        tmats.update(id(m) for m in E.touched_mats)
         if E.assign is not None:
             tmats.add(id(E.assign[0]))
         if E.unify is not None:
@@ -713,6 +805,13 @@ class Monitor(object):
             ent = post.mats[mid]
             if ent[1] is not ns or len(ent[2]) != len(rows) or any(a[0] is not b[0] or a[2] is not b[2] for a, b in zip(rows, ent[2])):
                 ok = self.viol(E, "bystander-matrix-changed", "a matrix that was not part of the call changed", raised)
+        for aid, ent in pre.arrays.items():
+            if aid in tarrays or aid not in post.arrays:
+                continue
+            ctx.ev("frame:array-judged")
+            now = post.arrays[aid]
+            if now[1] is not ent[1] or now[3] != ent[3]:
+                ok = self.viol(E, "bystander-array-changed", "a tree array that was not the target of the call changed", raised)
         return ok
 
     # ------------------------------------------------------------------------------
@@ -786,7 +885,9 @@ class Monitor(object):
 
     def check_mats(self, E, pre, post, items, newmat):
         ok = True
-        for m, mode in E.mats:
+        for e in E.mats:
+            m, mode = e[0], e[1]
+            want = e[2] if len(e) > 2 else None
             a = pre.mats[id(m)][2]
             ent = post.mats[id(m)]
             byseq = dict((id(r[2]), r) for r in ent[2])
@@ -798,7 +899,7 @@ class Monitor(object):
                 if r is None:
                     ok = self.viol(E, "row-dropped", "the sequence of %r is gone" % lbl)
                     continue
-                items.append((ent[1], lbl, tx, r[0], mode, None))
+                items.append((ent[1], lbl, tx, r[0], mode, want))
         if newmat is not None and E.matclone is not None:
             src, mode = E.matclone
             a = pre.mats[id(src)][2]
@@ -822,7 +923,9 @@ class Monitor(object):
                     ok = self.viol(E, "row-dropped", "%d sequences of the source are missing in the copy" % lost)
         if E.assign is not None:
             m, assigned = E.assign
-            a = pre.mats[id(m)][2]
+            if m is None:
+                m = newmat
+            a = pre.mats[id(m)][2] if id(m) in pre.mats else []
             ent = post.mats[id(m)]
             now = set(id(r[0]) for r in ent[2])
             self.ctx.ev("matrix-rows-judged")
@@ -841,7 +944,7 @@ class Monitor(object):
                     items.append((ent[1], key.label, key, r[0], "same", None))
         if newmat is not None and E.newrows is not None:
             ent = post.mats[id(newmat)]
-            cf = canon_fn(bool(ent[1].is_case_sensitive))
+            cf = canon_fn(bool(ent[1].is_case_sensitive) and not E.newrows_ci)
             got = sorted(cf(r[1]) for r in ent[2])
             want = sorted(cf(x) for x in E.newrows)
             self.ctx.ev("matrix-rows-judged")
@@ -852,7 +955,7 @@ class Monitor(object):
                     items.append((ent[1], r[1], None, r[0], "unify", None))
         return ok
 
-    def check_reads(self, E, pre, post, items):
+    def check_reads(self, E, pre, post, items, newlist=None, newmat=None):
         if E.reads is None:
             return True
         ok = True
@@ -870,10 +973,15 @@ class Monitor(object):
             for m in post.ds[id(d)][4]:
                 if id(m) not in before_m:
                     rows.append(post.mats[id(m)])
+        if newmat is not None:
+            rows.append(post.mats[id(newmat)])
         self.ctx.ev("read-judged")
         want_ns = R.get("ns")
         if want_ns is not None:
             self.ctx.ev("read-into-given-namespace-judged")
+            if newlist is not None and post.lists[id(newlist)][1] is not want_ns:
+                return self.viol(E, "read-not-into-the-namespace-passed-in",
+                                 "the new list refers to another namespace than the one given as taxon_namespace= (%d members)" % len(want_ns))
             for t, ns in trees:
                 if ns is not want_ns:
                     return self.viol(E, "read-not-into-the-namespace-passed-in",
@@ -882,10 +990,10 @@ class Monitor(object):
                 if ns is not want_ns:
                     return self.viol(E, "read-not-into-the-namespace-passed-in",
                                      "the matrix arrived in another namespace than the one given as taxon_namespace=")
-        want_trees = R.get("trees") or []
-        if True:
+        want_trees = R.get("trees")
+        if want_trees is not None:
             if len(trees) != len(want_trees):
-                return self.viol(E, "read-tree-count", "%d trees arrived, the source holds %d" % (len(trees), len(want_trees)))
+                return self.viol(E, "read-tree-count", "%d trees arrived, the source selection holds %d" % (len(trees), len(want_trees)))
             for (t, ns), labels in zip(trees, want_trees):
                 cf = canon_fn(bool(ns.is_case_sensitive))
                 nodes = post.trees[id(t)][2]
@@ -897,26 +1005,27 @@ class Monitor(object):
                 for x in nodes:
                     if x[1] is not None:
                         items.append((ns, x[2], None, x[1], "unify", None))
-        want_rows = R.get("rows")
-        if want_rows is not None:
-            if len(rows) != 1:
-                return self.viol(E, "read-matrix-count", "%d matrices arrived, the source holds 1" % len(rows))
-            m, ns, rr = rows[0]
-            cf = canon_fn(bool(ns.is_case_sensitive))
-            got = sorted(cf(r[1]) for r in rr)
-            want = sorted(cf(x) for x in want_rows)
-            if got != want:
-                ok = self.viol(E, "read-row-labels", "row labels %s, source has %s" % (got, want))
-            else:
-                for r in rr:
-                    items.append((ns, r[1], None, r[0], "unify", None))
+        want_mats = R.get("mats")
+        if want_mats is not None:
+            if len(rows) != len(want_mats):
+                return self.viol(E, "read-matrix-count", "%d matrices arrived, the source selection holds %d" % (len(rows), len(want_mats)))
+            for (m, ns, rr), want_rows in zip(rows, want_mats):
+                cf = canon_fn(bool(ns.is_case_sensitive))
+                got = sorted(cf(r[1]) for r in rr)
+                want = sorted(cf(x) for x in want_rows)
+                self.ctx.ev("read-matrix-judged")
+                if got != want:
+                    ok = self.viol(E, "read-row-labels", "row labels %s, source has %s" % (got, want))
+                else:
+                    for r in rr:
+                        items.append((ns, r[1], None, r[0], "unify", None))
         return ok
 
     def check_array(self, E, pre, post):
         # content of arrays is part of the closure (model vs stored leaf sets); here: re-use of existing members
-        if E.array is None:
+        if E.array is None or not E.array.get("reads"):
             return True
-        a = E.array[0]
+        a = E.array["a"]
         ent = post.arrays[id(a)]
         ns = ent[1]
         if id(ns) not in pre.ns:
@@ -926,6 +1035,7 @@ class Monitor(object):
         pre_canon = set(cf(x) for x in pre.ns[id(ns)][3])
         seen = {}
         ok = True
+        self.ctx.ev("array-read-judged")
         for t in post.ns[id(ns)][2]:
             if id(t) in pre_ids:
                 continue
@@ -985,6 +1095,8 @@ class Monitor(object):
                 if l is None:
                     if q is not None:
                         v("taxon-invented", "a node without taxon now has taxon %r" % q.label)
+                    else:
+                        ctx.ev("item:taxonless-judged")
                     continue
                 if q is None:
                     v("taxon-dropped", "the item labelled %r has no taxon any more" % l)
